@@ -24,6 +24,7 @@ type Global struct {
 	escField map[string]bool // "S.f" fields whose address escapes
 	modsets  map[*ssa.Function]*ModSet
 	typeinvs map[string][]PkgDecl // typeKey -> decls
+	repinvs  map[string][]PkgDecl // typeKey -> assumed representation invariants (see FuncContract.UsesRepInv)
 	ghostFields map[string]map[string]string // typeKey -> field -> sort type name
 	globalIdx map[*ssa.Global]int
 	axioms   []PkgDecl
@@ -95,7 +96,7 @@ func newGlobal(prog *ssa.Program, pkgs []*packages.Package, cs *Contracts) *Glob
 	g := &Global{prog: prog, pkgs: pkgs, cs: cs, spkgs: map[string]*ssa.Package{},
 		funcKey: map[*ssa.Function]string{}, keyFunc: map[string]*ssa.Function{},
 		tags: map[string]int{}, escField: map[string]bool{}, modsets: map[*ssa.Function]*ModSet{},
-		typeinvs: map[string][]PkgDecl{}, ghostFields: map[string]map[string]string{}, globalIdx: map[*ssa.Global]int{}, compKT: map[string]compKT{}, inherited: map[*ssa.Function]*FuncContract{}, fileLines: map[string][]string{}}
+		typeinvs: map[string][]PkgDecl{}, repinvs: map[string][]PkgDecl{}, ghostFields: map[string]map[string]string{}, globalIdx: map[*ssa.Global]int{}, compKT: map[string]compKT{}, inherited: map[*ssa.Function]*FuncContract{}, fileLines: map[string][]string{}}
 	for _, p := range prog.AllPackages() {
 		g.spkgs[p.Pkg.Path()] = p
 	}
@@ -189,6 +190,17 @@ func newGlobal(prog *ssa.Program, pkgs []*packages.Package, cs *Contracts) *Glob
 			dd.Text = strings.TrimSpace(d.Text[i+1:])
 			key := d.Pkg + "." + name
 			g.typeinvs[key] = append(g.typeinvs[key], dd)
+		case "repinv":
+			// "TypeName: expr(self)" with self a pointer to the struct
+			i := strings.Index(d.Text, ":")
+			if i < 0 {
+				continue
+			}
+			name := strings.TrimSpace(d.Text[:i])
+			dd := d
+			dd.Text = strings.TrimSpace(d.Text[i+1:])
+			key := d.Pkg + "." + name
+			g.repinvs[key] = append(g.repinvs[key], dd)
 		case "ghostfield":
 			// "pkgpath.Type.field sort"
 			fs := strings.Fields(d.Text)
@@ -201,12 +213,29 @@ func newGlobal(prog *ssa.Program, pkgs []*packages.Package, cs *Contracts) *Glob
 				g.ghostFields[tk] = map[string]string{}
 			}
 			g.ghostFields[tk][fname] = fs[1]
+			gk := KInt
+			switch {
+			case fs[1] == "bool":
+				gk = KBool
+			case fs[1] == "real":
+				gk = KReal
+			case fs[1] == "iface":
+				gk = KIface
+			case fs[1] == "ref" || strings.HasPrefix(fs[1], "*"):
+				gk = KRef
+			}
+			g.compKT["$ghost:"+tk+"."+fname] = compKT{gk, nil}
 		case "ghostarray":
 			fs := strings.Fields(d.Text)
 			if len(fs) == 2 {
 				k, srt := KBool, fs[1]
-				if srt == "int" {
+				switch srt {
+				case "int":
 					k = KInt
+				case "iface":
+					k = KIface
+				case "ref":
+					k = KRef
 				}
 				g.compKT["$ghost:"+fs[0]+"[]"] = compKT{k, nil}
 			}
@@ -215,7 +244,30 @@ func newGlobal(prog *ssa.Program, pkgs []*packages.Package, cs *Contracts) *Glob
 		}
 	}
 	g.parseProtects()
+	// short ghost-field components in ghostmod clauses ($ghost:entry.gidx) -> full type keys
+	for _, con := range g.cs.Funcs {
+		for i, gc := range con.GhostComps {
+			con.GhostComps[i] = g.expandGhostComp(con.Pkg, gc)
+		}
+	}
 	return g
+}
+
+func (g *Global) expandGhostComp(pkg, comp string) string {
+	if strings.HasSuffix(comp, "[]") {
+		return comp
+	}
+	if _, ok := g.compKT[comp]; ok {
+		return comp
+	}
+	body := strings.TrimPrefix(comp, "$ghost:")
+	if j := strings.LastIndex(body, "."); j > 0 && !strings.Contains(body[:j], "/") {
+		full := "$ghost:" + pkg + "." + body
+		if _, ok := g.compKT[full]; ok {
+			return full
+		}
+	}
+	return comp
 }
 
 func allFunctions(prog *ssa.Program) map[*ssa.Function]bool {
